@@ -427,6 +427,8 @@ def r11_10(ctx) -> None:
 
     def lit(t, outcome):
         e = t.ast
+        if isinstance(e, ast.Compare) and len(e.ops) == 1 and isinstance(e.ops[0], (ast.Eq, ast.NotEq)) and norm(e.comparators[0]) == ep and isinstance(e.left, ast.Constant):
+            e = ast.Compare(left=e.comparators[0], ops=e.ops, comparators=[e.left])  # 'PEM' == encoding
         if isinstance(e, ast.Compare) and len(e.ops) == 1 and norm(e.left) == ep:
             op, c = e.ops[0], e.comparators[0]
             if isinstance(op, (ast.Is, ast.IsNot)) and is_const(c, None):
